@@ -312,6 +312,8 @@ def execute(prop, tier, seed):
                         continue
                     r = ar.get()
                     results.append(r)
+                    if os.environ.get("VERIF_PROGRESS") and (r.get("wall_s") or 0) >= float(os.environ["VERIF_PROGRESS"]):
+                        log(f"[t+{time.time()-run.t0:.1f}s] job {r.get('job')} shard={r.get('shard')} {r.get('status')} wall={r.get('wall_s')}s paths={(r.get('stats') or {}).get('paths')}")
                     if r.get("violations") and first_violation_at is None:
                         first_violation_at = time.time()
                     if r.get("status") == "split":
